@@ -362,10 +362,10 @@ CORPUS = [
     # D1 (fixed in /repo, 0ad6ed0): clamp(1, 2px, 3em) panicked converting px<->em
     ("c", "clamp", [N(1), N(2, "px"), N(3, "em")]),
     ("c", "clamp", [N(1), N(2, "em"), N(3, "px")]),
-    # D40 (known): clamp with MAX < MIN < VAL returns MAX; CSS max(MIN, min(VAL, MAX)) is MIN
+    # D40 (fixed in /repo, 26a5ec6): clamp with MAX < MIN < VAL returned MAX; CSS max(MIN, min(VAL, MAX)) is MIN
     ("c", "clamp", [N(5, "px"), N(10, "px"), N(3, "px")]),
     ("c", "calc", [("o", "+", N(1, "em"), ("c", "clamp", [N(1, "in"), N(200, "px"), N(1, "cm")]))]),
-    # D41 (known): a unitless number next to a length in + / - is accepted
+    # D41 (fixed in /repo, b057818): a unitless number next to a length in + / - was accepted; now an error
     ("c", "calc", [("o", "+", N(1), N(2, "px"))]),
     ("c", "min", [("o", "-", N(3, "%"), N(2)), N(1, "em")]),
     # sign flip, parenthesisation, nesting
@@ -539,7 +539,8 @@ def evaluate(ck, pool, trees, envs, label):
             continue                     # main expression rejected by the model but accepted by grass: tie already counted
         coerced = model.startswith("ok 1")
         ck.hist("coerced(outside CSS semantics)" if coerced else "in-scope")
-        # known deviations are attributed only when grass equals the as-found model and differs from the spec
+        # class tags for deviations between the model of the code and a stricter variant (none at present:
+        # Cfg.now is the specified behaviour since the fixes for D40/D41, so these never fire)
         tags = []
         if tie == "1":
             if strict == "incompatible":
@@ -712,6 +713,8 @@ def run(tier, seed):
     envs = make_envs(ck.rng, 6)
     g = Gen(ck.rng)
     n = 6000 if tier == "quick" else 80000
+    if getattr(ck, "changed", None) and tier == "quick":
+        n *= 2          # modelled sources differ from the validated snapshot: enlarge the search
     trees = list(CORPUS)
     for k in range(n):
         trees.append(g.top(ck.rng.choice([1, 2, 2, 3, 3, 4])))
@@ -752,6 +755,6 @@ def replay(path):
         print("grass :", a.get("status"), (a.get("css") or "").replace("\n", " ") or a.get("err") or a.get("panic"))
         if c.get("tree"):
             print("model :", driver(["calc simp now " + c["tree"]])[0])
-            print("spec  :", driver(["calc simp spec " + c["tree"]])[0])
+            print("before 26a5ec6/b057818:", driver(["calc simp old " + c["tree"]])[0])
         print("recorded:", c.get("why"), "|", c.get("impl"))
     return 0
